@@ -62,10 +62,33 @@ fn all_strings(max_len: usize) -> Vec<String> {
     out
 }
 
+// what the server says about itself must not change what the client announces: the tables below differ in exactly that
+thread_local! { static SERVER_PROPS_VARIANT: std::cell::Cell<usize> = std::cell::Cell::new(0); }
+const SERVER_PROPS_VARIANTS: usize = 8;
 fn server_props() -> FieldTable {
+    let v = SERVER_PROPS_VARIANT.with(|c| c.get());
     let mut t = FieldTable::new();
+    if v == 1 {
+        return t;
+    }
     t.insert("product".to_string(), AMQPValue::LongString("broker".to_string()));
     t.insert("cluster_name".to_string(), AMQPValue::LongString("c1".to_string()));
+    let caps = |a: Option<bool>, b: Option<bool>| {
+        let mut c = FieldTable::new();
+        if let Some(a) = a { c.insert("consumer_cancel_notify".to_string(), AMQPValue::Boolean(a)); }
+        if let Some(b) = b { c.insert("connection.blocked".to_string(), AMQPValue::Boolean(b)); }
+        c.insert("publisher_confirms".to_string(), AMQPValue::Boolean(true));
+        AMQPValue::FieldTable(c)
+    };
+    match v {
+        2 => { t.insert("capabilities".to_string(), caps(Some(true), Some(true))); }
+        3 => { t.insert("capabilities".to_string(), caps(Some(false), Some(true))); }
+        4 => { t.insert("capabilities".to_string(), caps(Some(true), Some(false))); }
+        5 => { t.insert("capabilities".to_string(), caps(Some(false), Some(false))); }
+        6 => { t.insert("capabilities".to_string(), caps(None, None)); t.insert("information".to_string(), AMQPValue::LongString("server side".to_string())); }
+        7 => { t.insert("capabilities".to_string(), AMQPValue::LongString("not a table".to_string())); t.insert("platform".to_string(), AMQPValue::Boolean(false)); }
+        _ => {}
+    }
     t
 }
 
@@ -150,4 +173,20 @@ fn verif_sweep_c16_start_ok_real_mechanisms() {
             }
         }
     }
+}
+
+#[test]
+fn verif_sweep_c16_start_ok_does_not_depend_on_server_properties() {
+    for v in 0..SERVER_PROPS_VARIANTS {
+        SERVER_PROPS_VARIANT.with(|c| c.set(v));
+        for information in [None, Some("hello".to_string())] {
+            let options = ConnectionOptions::<Ab>::default().locale("BA").information(information.clone());
+            for (mechanisms, locales) in [("AB", "BA"), ("X AB", "BA Y"), ("A B", "BA"), ("AB", "B A"), ("", "")] {
+                check_one(&options, mechanisms, locales, &information);
+            }
+            let real = ConnectionOptions::<Auth>::default().information(information.clone());
+            check_one(&real, "PLAIN AMQPLAIN", "en_US", &information);
+        }
+    }
+    SERVER_PROPS_VARIANT.with(|c| c.set(0));
 }
